@@ -153,6 +153,7 @@ static bool fault_here(const char* call, int64_t* param) {
     else if (!strcmp(call, "clock_gettime")) match = f == "clock_fail";
     else if (!strcmp(call, "strndup")) match = f == "strndup_fail";
     else if (!strcmp(call, "realloc")) match = f == "realloc_fail";
+    else if (!strcmp(call, "malloc")) match = f == "malloc_fail";
     else if (!strcmp(call, "close") || !strcmp(call, "closedir")) match = f == "close_fail";
     if (!match || nth != g_cur_op->fault_nth) return false;
     *param = g_cur_op->fault_param;
@@ -224,6 +225,12 @@ extern "C" void* __wrap_realloc(void* p0, size_t n) {
     int64_t prm;
     if (sim::in_sut() && sim::active() && g_cur_op && g_cur_op->fault == "realloc_fail" && sut() && fault_here("realloc", &prm)) { if (S) S->fault_kind[F_ALLOC_FAIL]++; errno = ENOMEM; return nullptr; }
     return __real_realloc(p0, n);
+}
+extern "C" void* __real_malloc(size_t);
+extern "C" void* __wrap_malloc(size_t n) {
+    int64_t prm;
+    if (sim::in_sut() && sim::active() && g_cur_op && g_cur_op->fault == "malloc_fail" && sut() && fault_here("malloc", &prm)) { if (S) S->fault_kind[F_ALLOC_FAIL]++; errno = ENOMEM; return nullptr; }
+    return __real_malloc(n);
 }
 extern "C" ssize_t __real_read(int, void*, size_t);
 extern "C" ssize_t __real_write(int, const void*, size_t);
